@@ -56,8 +56,33 @@ def run_in_process(mod, ctx: Ctx):
         from spverif.san.reach import Reach
         reach = Reach(os.path.abspath(repo_mod.REPO).rstrip("/") + "/")
         reach.install()
+    # Re-visit: the first cases of every kind are executed again at the very end of the workload, after thousands of other
+    # values have passed through the code under test (a cache that has filled up and recycles its slots, a table that grew,
+    # a counter that wrapped show only when an *early* input comes back).
+    recorded = []
+    originals = {}
+    kinds = getattr(mod, "KINDS", {})
+    per_kind = {}
+    for gname, gval in list(vars(mod).items()):
+        if callable(gval) and any(gval is f for f in kinds.values()) and not gname.startswith("__"):
+            def make(fn, kname):
+                def rec(c, *a, **k):
+                    n = per_kind.get(kname, 0)
+                    if n < 25 and c is ctx:
+                        per_kind[kname] = n + 1
+                        recorded.append((fn, a, k))
+                    return fn(c, *a, **k)
+                rec.__wrapped__ = fn
+                return rec
+            originals[gname] = gval
+            setattr(mod, gname, make(gval, gname))
     try:
         mod.run(ctx)
+        for gname, gval in originals.items():
+            setattr(mod, gname, gval)
+        for fn, a, k in recorded:
+            fn(ctx, *a, **k)
+        ctx.extra["revisited_early_cases"] = len(recorded)
     except Exception as e:  # noqa: BLE001
         # A step the workload expected to succeed raised.  If the exception was raised by the code under test it is a
         # violation witness (the workload only performs operations the property says are valid); if it comes from the
